@@ -1408,7 +1408,7 @@ pub fn main(a: &Args) {
         }
         write_file(&a.out.join("cases_corpus.jsonl"), &out);
     }
-    let n = if a.thorough() { 300_000 } else { 16_000 };
+    let n = if a.thorough() { 100_000 } else { 16_000 };
     let mut out = String::new();
     let mut i = 0u64;
     let mut file_no = 0;
